@@ -141,7 +141,8 @@ def Wire.deliverItems (o : Opts) (resp : Bool) (pol : Policy) (f : Bytes → Ret
   else
     let ev := eventsOf items
     let r := run o resp pol f w.st ev.1
-    { rs := rs', st := r.1, dead := ev.2 || decide (r.1.phase = .errored), protoErr := ev.2,
+    -- handle_protocol_error fires the error hook only if the flow has not errored already (body_size_limit abort)
+    { rs := rs', st := r.1, dead := ev.2 || decide (r.1.phase = .errored), protoErr := ev.2 && !decide (r.1.phase = .errored),
       sawTrailer := items.contains .trailer, outs := w.outs ++ r.2,
       smp := w.smp ++ [r.1.buf.length] }
 
